@@ -24,7 +24,7 @@ ASSUMPTIONS = [
 ]
 REQUIRED_CLASSES = ["nontrivial", "lattice", "walk", "arc", "hook", "closed", "repeated_points", "tol<=0",
                     "len<=2", "run_of_deletions", "nothing_deleted", "predicate_true", "predicate_false",
-                    "exact_tie"]
+                    "exact_tie", "almost_closed", "rescaled_by_power_of_two", "len>=66", "long_run"]
 QUICK_SHARDS = 4
 
 plot_utils = sut.load("plot_utils")
@@ -45,6 +45,12 @@ def body(ctx, case):
         classes.add("lattice")
     if case.get("closed"):
         classes.add("closed")
+    if case.get("almost_closed"):
+        classes.add("almost_closed")
+    if case.get("shift"):
+        classes.add("rescaled_by_power_of_two")
+    if len(pts) >= 66:
+        classes.add("len>=66")
     if len({tuple(p) for p in pts}) < len(pts):
         classes.add("repeated_points")
     if tol <= 0:
@@ -129,11 +135,26 @@ DYADIC_TOL = st.sampled_from([0.5, 1.0, 2.0, 0.25, 3.0, 5.0, 1.5, 8.0])
 @st.composite
 def cases(draw):
     kind = draw(st.sampled_from(["lattice", "lattice", "walk", "walk", "walk", "arc", "hook", "uniform",
-                                 "tiny"]))
+                                 "tiny", "long_run"]))
     n = draw(st.one_of(st.integers(0, 4), st.integers(3, 16)))
-    lattice = kind in ("lattice", "tiny")
+    lattice = kind in ("lattice", "tiny", "long_run")
     pts = []
-    if kind == "tiny":
+    if kind == "long_run":
+        # a long removable run (60..200 vertices on a line, optionally with sub-tolerance wiggle), then a bend in
+        # the last few vertices - and sometimes a second run after it
+        m = draw(st.sampled_from([60, 63, 64, 65, 66, 70, 100, 127, 128, 129, 200]))
+        wiggle = draw(st.booleans())
+        tol = draw(st.sampled_from([0.5, 1.0, 2.0]))
+        for i in range(m):
+            pts.append([float(i), (0.25 if (wiggle and i % 3 == 1) else 0.0)])
+        tail = draw(st.integers(1, 4))
+        height = draw(st.sampled_from([1.0, 3.0, 8.0, 50.0]))
+        for j in range(tail):
+            pts.append([float(m + j), height * (1 if j % 2 == 0 else -1) * draw(st.sampled_from([1, 1, 0]))])
+        if draw(st.booleans()):
+            for i in range(draw(st.sampled_from([3, 64, 70]))):
+                pts.append([float(m + tail + i), pts[-1][1] if i else pts[-1][1]])
+    elif kind == "tiny":
         n = draw(st.integers(0, 3))
         pts = [[float(draw(st.integers(-3, 3))), float(draw(st.integers(-3, 3)))] for _ in range(n)]
         tol = draw(st.one_of(DYADIC_TOL, st.sampled_from([0.0, -1.0])))
@@ -193,9 +214,27 @@ def cases(draw):
     if len(pts) >= 2 and draw(st.integers(0, 4)) == 0:
         pts.append(list(pts[0]))
         closed = True
+    almost = False
+    if not closed and len(pts) >= 3 and draw(st.integers(0, 7)) == 0:
+        # a loop whose last vertex misses the first by float noise (non-zero, far below any sensible tolerance)
+        size = max(max(abs(c) for p in pts for c in p), 1e-300)
+        gap = size * draw(st.sampled_from([2.0 ** -30, 2.0 ** -40, 2.0 ** -50]))
+        dx, dy = draw(st.sampled_from([(1, 0), (0, 1), (1, 1), (-1, 1), (-1, 0), (0, -1)]))
+        pts.append([pts[0][0] + gap * dx, pts[0][1] + gap * dy])
+        almost = True
+        lattice = False
     if draw(st.integers(0, 11)) == 0:
         tol = draw(st.sampled_from([0.0, -1.0, 1e300]))
-    return {"points": pts, "tol": tol, "lattice": lattice, "kind": kind, "closed": closed}
+    shift = 0
+    if tol not in (1e300,) and draw(st.integers(0, 2)) == 0:
+        # the same drawing in other units: a power-of-two factor keeps every float operation exact, so the answer
+        # must be the same subsequence; absolute thresholds inside the code show up here
+        shift = draw(st.sampled_from([-60, -40, -30, -20, -10, 10, 20, 40, 60]))
+        f = 2.0 ** shift
+        pts = [[p[0] * f, p[1] * f] for p in pts]
+        tol = tol * f
+    return {"points": pts, "tol": tol, "lattice": lattice, "kind": kind, "closed": closed, "almost_closed": almost,
+            "shift": shift}
 
 
 def lattice_grid():
